@@ -170,6 +170,30 @@ theorem fold_tree_none_of_none (wc : WC) (disk : Disk) (ign : Path → Bool) (q 
     simp only [snapshotFold]
     exact ih _ (apply_tree_none acc p q _ (fun e => by subst e; exact hd) h)
 
+/-- a path that is never recorded and absent from the tree stays absent -/
+theorem fold_tree_none_norecord (wc : WC) (disk : Disk) (ign : Path → Bool) (q : Path)
+    (hd : ∀ v, decideAt wc disk ign q ≠ .record v) :
+    ∀ ps acc, get acc.1 q = none → get (snapshotFold wc disk ign ps acc).1 q = none := by
+  intro ps
+  induction ps with
+  | nil => intro acc h; simpa [snapshotFold] using h
+  | cons p ps ih =>
+    intro acc h
+    simp only [snapshotFold]
+    apply ih
+    by_cases hpq : p = q
+    · subst hpq
+      cases hdec : decideAt wc disk ign p with
+      | keep => simpa [applyDecision] using h
+      | delete => simp [applyDecision, get_del_self]
+      | record v => exact absurd hdec (hd v)
+    · cases hdec : decideAt wc disk ign p with
+      | keep => simpa [applyDecision] using h
+      | delete => simpa [applyDecision, get_del_ne (Ne.symm hpq)] using h
+      | record v =>
+        simp only [applyDecision, treeSet_get, Ne.symm hpq, if_false]
+        split <;> simp [h]
+
 theorem fold_tree_delete (wc : WC) (disk : Disk) (ign : Path → Bool) (q : Path)
     (hd : decideAt wc disk ign q = .delete) :
     ∀ ps acc, q ∈ ps → get (snapshotFold wc disk ign ps acc).1 q = none := by
